@@ -303,6 +303,7 @@ Proof.
   unfold handle_last_will. intros H.
   destruct (al_get str_eqb client (r_wills st)) as [w|]; [|inv_ok; apply PS_refl].
   destruct (negb (utf8_valid _)); [inv_ok; now apply PS_eq|].
+  match type of H with (if ?b then _ else _) = _ => destruct b end; [inv_ok; now apply PS_eq|].
   apply bind_ok in H as ([st3 idxs] & H3 & H). apply bind_ok in H as (st4 & H4 & H).
   eapply PS_trans; [|eapply PS_trans; [eapply dl_matches_PS; exact H3|]].
   - eapply PS_trans; [|apply retain_update_PS]. now apply PS_eq.
